@@ -140,6 +140,8 @@ func c02Run(c c02Case) (*MIME, error) {
 		return DetectFile(filepath.Join(vfScratchDir(), "does", "not", "exist"))
 	case "dir":
 		return DetectFile(vfScratchDir())
+	case "fileslash": // a regular file named with a trailing separator: ENOTDIR
+		return DetectFile(vfWriteFile("c02s", doc, 0) + string(filepath.Separator))
 	case "file":
 		return DetectFile(vfWriteFile("c02", doc, vfHash(doc)))
 	}
@@ -160,7 +162,7 @@ func c02Check(c c02Case) vfResult {
 	if c.Entry == "readerr" && err != nil && !errors.Is(err, errC02Sentinel) {
 		r.Err = fmt.Errorf("reader failed with the sentinel but DetectReader returned error %v", err)
 	}
-	if (c.Entry == "nofile" || c.Entry == "dir") && err == nil {
+	if (c.Entry == "nofile" || c.Entry == "dir" || c.Entry == "fileslash") && err == nil {
 		r.Err = fmt.Errorf("DetectFile(%s) returned no error", c.Entry)
 	}
 	r.Hash = vfHash(c.Doc, vfHashU(uint64(c.Limit), uint64(c.ErrAt)), []byte(c.Entry))
@@ -215,7 +217,7 @@ func c02Gen(t *rapid.T) c02Case {
 	}
 	c.Doc = vfB(doc)
 	c.Limit = vfGenLimit(t, len(doc))
-	c.Entry = rapid.SampledFrom([]string{"detect", "detect", "detect", "reader", "reader", "readerr", "file", "nofile", "dir"}).Draw(t, "entry")
+	c.Entry = rapid.SampledFrom([]string{"detect", "detect", "detect", "reader", "reader", "readerr", "file", "nofile", "dir", "fileslash"}).Draw(t, "entry")
 	if c.Entry == "readerr" {
 		c.ErrAt = rapid.IntRange(0, len(doc)).Draw(t, "errat")
 	}
